@@ -10,6 +10,8 @@ mod finality_tracker;
 mod parent_ready_tracker;
 mod slot_state;
 mod sorted_vec;
+#[cfg(feature = "verif-hooks")]
+pub(crate) mod verif;
 
 use std::collections::BTreeMap;
 use std::ops::RangeBounds;
@@ -389,6 +391,8 @@ impl PoolImpl {
     }
 
     async fn handle_finalization(&mut self, event: FinalizationEvent) {
+        #[cfg(feature = "verif-hooks")]
+        verif::record_finalization(&event);
         let new_parents_ready = self.parent_ready_tracker.handle_finalization(event);
         self.send_parent_ready_events(new_parents_ready).await;
         self.prune();
@@ -518,6 +522,8 @@ impl Pool for PoolImpl {
         let finalization_event = self
             .finality_tracker
             .add_parent(block_id.clone(), parent_id.clone());
+        #[cfg(feature = "verif-hooks")]
+        verif::record_finalization(&finalization_event);
         let new_parents_ready = self
             .parent_ready_tracker
             .handle_finalization(finalization_event);
